@@ -171,6 +171,10 @@ def method_surface(H, cls):
         out.append(("has_simplex", lambda: H.has_simplex(list(H._edge[e0]) if e0 is not None else [0])))
     if cls == "DH":
         out.append(("cleanup(in_place=False)", lambda: H.cleanup(in_place=False)))
+    # the class constructors take a network (of any class they accept) plus keyword attributes of the new network
+    for cname, K in (("Hypergraph", xgi.Hypergraph), ("SimplicialComplex", xgi.SimplicialComplex), ("DiHypergraph", xgi.DiHypergraph)):
+        out.append((f"{cname}(network, name=..., wt=...)", lambda K=K: K(H, name="derived", wt=[1, 2])))
+        out.append((f"{cname}(network)", lambda K=K: K(H)))
     out.append(("iter", lambda: list(H)))
     out.append(("str", lambda: str(H)))
     out.append(("pickle", lambda: __import__("pickle").dumps(H)))
@@ -201,7 +205,8 @@ def networks(cls, g, shapes, rng, frozen):
             for m in j["e2n"]:
                 mm = [g.node(n) for n in m]
                 H.add_edge((mm[: (len(mm) + 1) // 2], mm[(len(mm) + 1) // 2:] or mm[:1]))
-        H["wt"] = [7]
+        if rng.random() < 0.6:  # also networks without any network attribute
+            H["wt"] = [7]
         if frozen:
             H.freeze()
         outs.append(H)
